@@ -23,12 +23,22 @@ def run(s, ctx, tolerant):
     return dump(nl)
 
 
+def _argsig(spec):
+    out = []
+    for a in (getattr(spec, 'arguments_spec_list', None) or []):
+        p = getattr(a, 'parser', a)
+        out.append((p if isinstance(p, str) else type(p).__name__, getattr(a, 'argname', None)))
+    return out
+
+
 def snapshot(db):
+    """categories, names and argument signatures of a context database (attribute values only: repr()/id() of objects
+    make CrossHair discard the path with a failed deferred assumption)"""
     out = []
     for c in db.categories():
         out.append((c,
-                    [(m.macroname, repr(getattr(m, 'arguments_spec_list', None))) for m in db.iter_macro_specs([c])],
-                    [(e.environmentname, repr(getattr(e, 'arguments_spec_list', None))) for e in db.iter_environment_specs([c])],
+                    [(m.macroname, _argsig(m)) for m in db.iter_macro_specs([c])],
+                    [(e.environmentname, _argsig(e)) for e in db.iter_environment_specs([c])],
                     [x.specials_chars for x in db.iter_specials_specs([c])]))
     return (out, db.unknown_macro_spec is None, db.unknown_environment_spec is None, db.frozen)
 
